@@ -115,6 +115,8 @@ def r1(ctx, chk):
             for t in n.targets:
                 if isinstance(t, ast.Subscript) and isinstance(t.slice, ast.Constant):
                     deleted.add(t.slice.value)
+        elif isinstance(n, ast.Call) and isinstance(n.func, ast.Attribute) and n.func.attr == "pop" and n.args and isinstance(n.args[0], ast.Constant):
+            deleted.add(n.args[0].value)          # kwargs.pop("decades") removes the key as well
     for u in units:
         k = u + "s"
         ok = k in rd_kw or k in deleted
@@ -196,21 +198,43 @@ def r3(ctx, chk):
                     return w
         return None
 
+    from ..core.ctx import _resolve_flag
     found = 0
+    decisions = []          # (test expression, sign of the then-arm, sign of the else-arm, node)
     for s in iter_own_stmts(f.node.body):
         if not isinstance(s, ast.If):
             continue
         def sign(block):
             for b in block:
-                if isinstance(b, ast.Assign) and isinstance(b.value, ast.BinOp) and isinstance(b.value.op, (ast.Add, ast.Sub)) \
-                        and ast.unparse(b.value.left) == params[2]:
-                    return "+" if isinstance(b.value.op, ast.Add) else "-"
+                v_ = None
+                if isinstance(b, ast.Assign):
+                    v_ = b.value
+                elif isinstance(b, ast.Return) and b.value is not None:
+                    v_ = b.value.elts[0] if isinstance(b.value, ast.Tuple) and b.value.elts else b.value
+                if isinstance(v_, ast.BinOp) and isinstance(v_.op, (ast.Add, ast.Sub)) and ast.unparse(v_.left) == params[2]:
+                    return "+" if isinstance(v_.op, ast.Add) else "-"
             return None
-        sa, sb = sign(s.body), sign(s.orelse)
+        other = s.orelse
+        if not other and s.body and isinstance(s.body[-1], ast.Return) and sign(s.body) is not None:
+            blk = f.node.body
+            other = blk[blk.index(s) + 1:] if s in blk else []          # `if T: return now + d, p` followed by `return now - d, p`
+        sa, sb = sign(s.body), sign(other)
         if sa is None and sb is None:
             continue
+        decisions.append((s.test, sa, sb, s))
+    # the same decision as a conditional expression: `now + d if <test> else now - d` (the test possibly through a flag local)
+    for e_ in iter_own_nodes(f.node):
+        if isinstance(e_, ast.IfExp):
+            def esign(x):
+                if isinstance(x, ast.BinOp) and isinstance(x.op, (ast.Add, ast.Sub)) and ast.unparse(x.left) == params[2]:
+                    return "+" if isinstance(x.op, ast.Add) else "-"
+                return None
+            sa, sb = esign(e_.body), esign(e_.orelse)
+            if sa is not None or sb is not None:
+                decisions.append((_resolve_flag(f.node, e_.test), sa, sb, e_))
+    for test_, sa, sb, s in decisions:
         found += 1
-        form = G.to_formula(s.test, atom)
+        form = G.to_formula(test_, atom)
         free = G.atoms_of(form, ("free",))
         spec = ("or", ("atom", "in"), ("and", ("atom", "future"), ("not", ("atom", "ago"))))
         if sa == "-" and sb == "+":
@@ -226,7 +250,7 @@ def r3(ctx, chk):
                    " under " + str({k: v for k, v in diff.items()}) if diff else
                    " (branches %s/%s, unrecognised atoms %s)" % (sa, sb, sorted(free))),
                key={"function": f.key, "construct": "direction truth table"}, file=f.file, function=f.qual,
-               line=s.lineno, text=ast.unparse(s.test))
+               line=s.lineno, text=ast.unparse(test_))
     chk.floor(rule, found, 1, "direction branches in _parse_date")
     # the delta is relativedelta(**kwargs) of get_kwargs(date_string)
     txt = {ast.unparse(n) for n in iter_own_nodes(f.node) if isinstance(n, ast.Call)}
@@ -273,6 +297,16 @@ def r4(ctx, chk):
             if isinstance(k, ast.BinOp) and isinstance(k.op, ast.Add) and isinstance(k.right, ast.Constant) and k.right.value == "s" \
                     and isinstance(k.left, ast.Name) and ast.unparse(n.value).startswith("float("):
                 ok_key = True
+            if isinstance(k, ast.JoinedStr) and len(k.values) == 2 and isinstance(k.values[0], ast.FormattedValue) and isinstance(k.values[0].value, ast.Name) \
+                    and isinstance(k.values[1], ast.Constant) and k.values[1].value == "s" and ast.unparse(n.value).startswith("float("):
+                ok_key = True
+    # the same in one dict comprehension: {unit + "s": float(num...) for num, unit in <matches>}
+    comps = [n for n in iter_own_nodes(f.node) if isinstance(n, ast.DictComp) and len(n.generators) == 1]
+    for n in comps:
+        k = n.key
+        if isinstance(k, ast.BinOp) and isinstance(k.op, ast.Add) and isinstance(k.right, ast.Constant) and k.right.value == "s" \
+                and isinstance(k.left, ast.Name) and ast.unparse(n.value).startswith("float("):
+            ok_key = True
     chk.ob(rule, "get_kwargs stores float(count) under unit+'s'", ok_key,
            "the count is not stored under the plural relativedelta key of its own unit",
            key={"function": f.key, "construct": "kwargs[unit + 's'] = float(num)"}, file=f.file, function=f.qual,
@@ -283,7 +317,10 @@ def r4(ctx, chk):
     if not rets:
         raise AnalysisError(rule, "get_kwargs does not return a local dict")
     kw = rets[-1]
-    syms = {"D": {"%s['decades']" % kw}, "Y": {"%s.get('years', 0)" % kw, "%s['years']" % kw}}
+    syms = {"D": {"%s['decades']" % kw, "%s.pop('decades')" % kw}, "Y": {"%s.get('years', 0)" % kw, "%s['years']" % kw}}
+    for n in iter_own_nodes(f.node):        # a local that holds the decades count stands for it
+        if isinstance(n, ast.Assign) and len(n.targets) == 1 and isinstance(n.targets[0], ast.Name) and ast.unparse(n.value) in syms["D"]:
+            syms["D"] = syms["D"] | {n.targets[0].id}
     fold = None
     for n in iter_own_nodes(f.node):
         if isinstance(n, ast.Assign) and ast.unparse(n.targets[0]) == "%s['years']" % kw:
@@ -300,14 +337,16 @@ def r4(ctx, chk):
            key={"function": f.key, "construct": "years = 10*decades + years"}, file=f.file, function=f.qual,
            line=f.node.lineno)
     dels = [ast.unparse(t) for n in iter_own_nodes(f.node) if isinstance(n, ast.Delete) for t in n.targets]
-    chk.ob(rule, "the decades key is deleted before relativedelta", "%s['decades']" % kw in dels, "",
+    pops = [n for n in iter_own_nodes(f.node) if isinstance(n, ast.Call) and ast.unparse(n.func) == "%s.pop" % kw and n.args
+            and isinstance(n.args[0], ast.Constant) and n.args[0].value == "decades"]
+    chk.ob(rule, "the decades key is deleted before relativedelta", "%s['decades']" % kw in dels or bool(pops), "",
            key={"function": f.key, "construct": "del kwargs['decades']"}, file=f.file, function=f.qual,
            line=f.node.lineno)
     # ... on every path on which the key exists: the deletion is guarded by key MEMBERSHIP only (a test on the value
     # skips the count 0 and hands decades=0.0 to relativedelta -> TypeError), or it is an unconditional pop with a default
     from ..core.ctx import conjuncts as _cj, enclosing_tests as _et
     for n in iter_own_nodes(f.node):
-        if isinstance(n, ast.Delete) and any(ast.unparse(t) == "%s['decades']" % kw for t in n.targets):
+        if (isinstance(n, ast.Delete) and any(ast.unparse(t) == "%s['decades']" % kw for t in n.targets)) or (n in pops and len(n.args) == 1):
             guards = [(" ".join(ast.unparse(a).split()), p_) for t_, pol in _et(f.node, n) for a, p_ in _cj(t_, pol)]
             import re as _re2
             about_kw = [(g, p_) for g, p_ in guards if _re2.search(r"\b%s\b" % _re2.escape(kw), g)]
@@ -317,7 +356,8 @@ def r4(ctx, chk):
                    key={"function": f.key, "construct": "decades removal guard"}, file=f.file, function=f.qual, line=n.lineno)
     # every (num, unit) match contributes (several units add up): a loop over PATTERN.findall
     loops = [n for n in iter_own_nodes(f.node) if isinstance(n, ast.For)]
-    ok = any("findall" in ast.unparse(n.iter) or isinstance(n.iter, ast.Name) for n in loops) and \
+    ok = (any("findall" in ast.unparse(n.iter) or isinstance(n.iter, ast.Name) for n in loops)
+          or any("findall" in ast.unparse(c_.generators[0].iter) or isinstance(c_.generators[0].iter, ast.Name) for c_ in comps)) and \
         any("PATTERN.findall" in ast.unparse(n) for n in iter_own_nodes(f.node) if isinstance(n, ast.Call))
     chk.ob(rule, "get_kwargs loops over all PATTERN.findall matches", ok, "",
            key={"function": f.key, "construct": "for num, unit in PATTERN.findall(...)"}, file=f.file,
@@ -325,45 +365,164 @@ def r4(ctx, chk):
 
 
 def r5(ctx, chk):
+    """which period is reported: decided by evaluating the statements of _parse_date that set the period, for all 16 combinations of
+    which of days/weeks/months/years the phrase counts (a loop with break, a next() over a generator, a lookup table and an if-chain all
+    say the same thing when they give the same 16 answers)"""
     rule = "C04.R5"
     f = ctx.ix.func(FP + ":FreshnessDateDataParser._parse_date")
-    from ..core.ctx import conjuncts, enclosing_tests
-
-    found = 0
-    for n in iter_own_nodes(f.node):
-        if isinstance(n, ast.For) and isinstance(n.iter, (ast.List, ast.Tuple)):
-            try:
-                order = list(ast.literal_eval(n.iter))
-            except Exception:
-                continue
-            if not set(order) & {"weeks", "months", "years"}:
-                continue
-            found += 1
-            chk.ob(rule, "period candidates are tried finest first: %s" % order, order == ["weeks", "months", "years"],
-                   "order of the period candidates changed",
-                   key={"function": f.key, "construct": "period order"}, file=f.file, function=f.qual, line=n.lineno)
-            has_break = any(isinstance(x, ast.Break) for x in ast.walk(n))
-            chk.ob(rule, "the first counted candidate wins (break)", has_break,
-                   "without the break the coarsest counted unit wins",
-                   key={"function": f.key, "construct": "period break"}, file=f.file, function=f.qual, line=n.lineno)
-            sing = any(isinstance(x, ast.Assign) and isinstance(x.value, ast.Subscript) and isinstance(x.value.slice, ast.Slice)
-                       and ast.unparse(x.value.slice) == ":-1" for x in ast.walk(n))
-            chk.ob(rule, "period is the singular of the matched key (k[:-1])", sing, "",
-                   key={"function": f.key, "construct": "period singular"}, file=f.file, function=f.qual, line=n.lineno)
-            guarded = False
-            for test, pol in enclosing_tests(f.node, n):
-                for a, p in conjuncts(test, pol):
-                    if isinstance(a, ast.Compare) and isinstance(a.left, ast.Constant) and a.left.value == "days" and (
-                            (p and isinstance(a.ops[0], ast.NotIn)) or (not p and isinstance(a.ops[0], ast.In))):
-                        guarded = True
-            chk.ob(rule, "week/month/year periods only when the phrase counts no days", guarded, "",
-                   key={"function": f.key, "construct": "period days guard"}, file=f.file, function=f.qual, line=n.lineno)
-    chk.floor(rule, found, 1, "period selection loops")
     pname = _period_name(f)
-    init = [n for n in iter_own_nodes(f.node) if isinstance(n, ast.Assign) and ast.unparse(n.targets[0]) == pname
-            and isinstance(n.value, ast.Constant)]
-    chk.ob(rule, "default period is 'day'", any(n.value.value == "day" for n in init), "",
-           key={"function": f.key, "construct": "default period"}, file=f.file, function=f.qual, line=f.node.lineno)
+    kwname = None
+    for n in iter_own_nodes(f.node):
+        if isinstance(n, ast.Assign) and isinstance(n.value, ast.Call) and ast.unparse(n.value.func).endswith("get_kwargs") and isinstance(n.targets[0], ast.Name):
+            kwname = n.targets[0].id
+    if kwname is None:
+        chk.error(rule, "_parse_date: the local holding get_kwargs(..) was not found")
+        return
+
+    class Unknown(Exception):
+        pass
+
+    class Brk(Exception):
+        pass
+
+    def const_seq(e):
+        try:
+            return ast.literal_eval(e)
+        except Exception:
+            pass
+        if isinstance(e, ast.Name):
+            vals = f.module.assigns.get(e.id)
+            if vals:
+                try:
+                    return ast.literal_eval(vals[-1])
+                except Exception:
+                    pass
+        if isinstance(e, ast.Call) and isinstance(e.func, ast.Attribute) and e.func.attr == "items" and not e.args:
+            d = const_seq(e.func.value)
+            if isinstance(d, dict):
+                return list(d.items())
+        raise Unknown(ast.unparse(e)[:40])
+
+    def ev(e, env, present):
+        if isinstance(e, ast.Constant):
+            return e.value
+        if isinstance(e, ast.Name):
+            if e.id in env:
+                return env[e.id]
+            vals = f.module.assigns.get(e.id)
+            if vals and len(vals) == 1:
+                try:
+                    return ast.literal_eval(vals[0])
+                except Exception:
+                    pass
+            raise Unknown(e.id)
+        if isinstance(e, ast.Subscript):
+            v = ev(e.value, env, present) if not (isinstance(e.value, ast.Name) and e.value.id not in env) else const_seq(e.value)
+            if isinstance(e.slice, ast.Slice):
+                lo = ev(e.slice.lower, env, present) if e.slice.lower is not None else None
+                hi = ev(e.slice.upper, env, present) if e.slice.upper is not None else None
+                return v[lo:hi]
+            return v[ev(e.slice, env, present)]
+        if isinstance(e, ast.UnaryOp) and isinstance(e.op, ast.USub):
+            return -ev(e.operand, env, present)
+        if isinstance(e, ast.UnaryOp) and isinstance(e.op, ast.Not):
+            return not ev(e.operand, env, present)
+        if isinstance(e, ast.BoolOp):
+            vals = [ev(v, env, present) for v in e.values]
+            return all(vals) if isinstance(e.op, ast.And) else any(vals)
+        if isinstance(e, ast.Compare) and len(e.ops) == 1 and isinstance(e.ops[0], (ast.In, ast.NotIn)) and ast.unparse(e.comparators[0]) == kwname:
+            r = ev(e.left, env, present) in present
+            return r if isinstance(e.ops[0], ast.In) else not r
+        if isinstance(e, ast.IfExp):
+            return ev(e.body, env, present) if ev(e.test, env, present) else ev(e.orelse, env, present)
+        if isinstance(e, ast.Call) and ast.unparse(e.func) == "next" and len(e.args) == 2 and isinstance(e.args[0], ast.GeneratorExp) \
+                and len(e.args[0].generators) == 1:
+            gen = e.args[0].generators[0]
+            for item in const_seq(gen.iter):
+                e2 = dict(env)
+                bind(gen.target, item, e2)
+                if all(ev(c, e2, present) for c in gen.ifs):
+                    return ev(e.args[0].elt, e2, present)
+            return ev(e.args[1], env, present)
+        raise Unknown(ast.unparse(e)[:40])
+
+    def bind(t, v, env):
+        if isinstance(t, ast.Name):
+            env[t.id] = v
+        elif isinstance(t, ast.Tuple) and len(t.elts) == len(v):
+            for a_, b_ in zip(t.elts, v):
+                bind(a_, b_, env)
+        else:
+            raise Unknown("target")
+
+    def touches(st):
+        return any(isinstance(x, ast.Name) and x.id == pname and isinstance(x.ctx, ast.Store) for x in ast.walk(st))
+
+    def run(stmts, env, present):
+        for st in stmts:
+            if not touches(st) and not isinstance(st, ast.Break):
+                continue
+            if isinstance(st, ast.Assign) and ast.unparse(st.targets[0]) == pname:
+                env[pname] = ev(st.value, env, present)
+            elif isinstance(st, ast.If):
+                run(st.body if ev(st.test, env, present) else st.orelse, env, present)
+            elif isinstance(st, ast.For):
+                try:
+                    for item in const_seq(st.iter):
+                        bind(st.target, item, env)
+                        run(st.body, env, present)
+                    run(st.orelse, env, present)
+                except Brk:
+                    pass
+            elif isinstance(st, ast.Break):
+                raise Brk()
+            else:
+                raise Unknown(ast.unparse(st)[:40])
+        return env
+    import itertools
+    keys = ("days", "weeks", "months", "years")
+    wrong = []
+    n = 0
+    try:
+        for bits in itertools.product((False, True), repeat=4):
+            present = {k for k, b_ in zip(keys, bits) if b_}
+            def run_with_breaks(stmts, env):
+                for st in stmts:
+                    if isinstance(st, ast.For) and touches(st):
+                        try:
+                            for item in const_seq(st.iter):
+                                bind(st.target, item, env)
+                                inner(st.body, env)
+                            run(st.orelse, env, present)
+                        except Brk:
+                            pass
+                    elif isinstance(st, ast.If) and touches(st):
+                        run_with_breaks(st.body if ev(st.test, env, present) else st.orelse, env)
+                    elif touches(st):
+                        run([st], env, present)
+                return env
+
+            def inner(stmts, env):
+                for st in stmts:
+                    if isinstance(st, ast.Break):
+                        raise Brk()
+                    if isinstance(st, ast.If):
+                        inner(st.body if ev(st.test, env, present) else st.orelse, env)
+                    elif touches(st):
+                        run([st], env, present)
+            env = run_with_breaks(f.node.body, {})
+            got = env.get(pname)
+            want = "day" if "days" in present else "week" if "weeks" in present else "month" if "months" in present else "year" if "years" in present else "day"
+            n += 1
+            if got != want:
+                wrong.append((sorted(present), got, want))
+    except (Unknown, KeyError, IndexError, TypeError) as e_:
+        chk.error(rule, "_parse_date: the period is decided by something this rule cannot evaluate (%s)" % e_)
+        return
+    chk.ob(rule, "period: day if days are counted, else the finest of week/month/year that is counted, else day (16 combinations evaluated)", not wrong,
+           "counted units -> (period, expected): %s" % wrong[:4],
+           key={"function": f.key, "construct": "period decision"}, file=f.file, function=f.qual, line=f.node.lineno)
+    chk.floor(rule, n, 16, "combinations of counted units")
 
 
 def _period_name(f):
@@ -377,17 +536,24 @@ def _period_name(f):
 def r6(ctx, chk):
     rule = "C04.R6"
     f = ctx.ix.func(FP + ":FreshnessDateDataParser.parse")
-    at = f.children.get("apply_time")
-    if at is None:
-        raise AnalysisError(rule, "parse.<locals>.apply_time not found")
-    p = at.params()
-    reps = [n for n in iter_own_nodes(at.node) if isinstance(n, ast.Call) and isinstance(n.func, ast.Attribute)
-            and n.func.attr == "replace" and ast.unparse(n.func.value) == p[0]]
-    ok = False
-    for r in reps:
-        kw = {k.arg: ast.unparse(k.value) for k in r.keywords}
-        if kw == {x: "%s.%s" % (p[1], x) for x in ("hour", "minute", "second", "microsecond")}:
-            ok = True
+    # the place where the clock time of the phrase is put onto the date: a replace(hour=T.hour, minute=T.minute, second=T.second,
+    # microsecond=T.microsecond) with all four fields from ONE time value - in the closure of parse, in a method or function parse calls,
+    # or inline in parse itself
+    want_fields = ("hour", "minute", "second", "microsecond")
+    cands = [f] + [c for s_ in ctx.cg.sites.get(f.key, ()) for c in s_.callees if c.module is f.module] + list(f.children.values())
+    at, ok, saw = f, False, 0
+    for g_ in cands:
+        for n in iter_own_nodes(g_.node):
+            if isinstance(n, ast.Call) and isinstance(n.func, ast.Attribute) and n.func.attr == "replace" \
+                    and any(k.arg in want_fields for k in n.keywords):
+                saw += 1
+                kw = {k.arg: ast.unparse(k.value) for k in n.keywords}
+                srcs = {v.rsplit(".", 1)[0] for v in kw.values() if "." in v}
+                if set(kw) == set(want_fields) and len(srcs) == 1 and all(kw[x] == "%s.%s" % (next(iter(srcs)), x) for x in want_fields):
+                    ok, at = True, g_
+    if not saw:
+        chk.error(rule, "freshness parse: no replace(hour=.., ..) found in parse, its closures or the functions it calls")
+        return
     chk.ob(rule, "apply_time replaces exactly hour/minute/second/microsecond with the parsed time's fields", ok,
            "the clock time of the phrase does not replace the time of day field by field",
            key={"function": at.key, "construct": "replace(hour=..,minute=..,second=..,microsecond=..)"},
